@@ -6,6 +6,8 @@ import (
 	"fmt"
 	"strings"
 	"time"
+
+	"github.com/nats-io/nats.go"
 )
 
 // Package-level errors that can be returned by the library.
@@ -253,17 +255,28 @@ func IsPermanentError(err error) bool {
 		return false
 	}
 
-	if _, ok := err.(*TimeoutError); ok {
+	var timeoutErr *TimeoutError
+	if errors.As(err, &timeoutErr) {
 		return false
 	}
 	if errors.Is(err, context.DeadlineExceeded) {
 		return false
 	}
 
+	// The NATS client reports a failed revision-checked write (Update with a
+	// stale revision, Create on an existing key) as JetStream API error 10071,
+	// "nats: wrong last sequence: N" (Create appends ": key exists"). Somebody
+	// else owns the record: retrying cannot succeed.
+	if errors.Is(err, nats.ErrKeyExists) {
+		return true
+	}
+
 	errMsg := strings.ToLower(err.Error())
 
 	permanentPatterns := []string{
 		"revision mismatch",
+		"wrong last sequence",
+		"key exists",
 		"key not found",
 		"permission denied",
 		"bucket not found",
